@@ -338,6 +338,13 @@ void tensors() {
       s = s * 6364136223846793005ULL + 1442695040888963407ULL;
       x = (T)std::ldexp((0.3L + 1.7L * u) * ((s >> 20) & 1 ? -1 : 1), (int)((s >> 33) % 7) - 3 + (it % 5 - 2) * 6);
     }
+    // every fourth tensor is rotation-dominated: the transposed entries nearly cancel (spin much larger than shear), each with
+    // its own full mantissa - the symmetric part is then a small difference of large numbers
+    if (it % 4 == 3) {
+      c[3] = -c[1] - c[1] * (T)(1.0L / 12288);
+      c[6] = -c[2] + c[2] * (T)(1.0L / 30011);
+      c[7] = -c[5] * (T)(1 - 1.0L / 65521);
+    }
     auto cmp = [&](const char* name, const T* got, const f128* want, const f128* scale, int n) {
       vf::stat("evaluations");
       for (int i = 0; i < n; i++) {
@@ -357,7 +364,8 @@ void tensors() {
     {
       const DisplacementGradient<T> G(Dyad<T>(c[0], c[1], c[2], c[3], c[4], c[5], c[6], c[7], c[8]));
       f128 want[6] = {(f128)c[0], ((f128)c[1] + c[3]) / 2, ((f128)c[2] + c[6]) / 2, (f128)c[4], ((f128)c[5] + c[7]) / 2, (f128)c[8]};
-      f128 sc[6] = {fabsq(want[0]), (fabsq((f128)c[1]) + fabsq((f128)c[3])) / 2, (fabsq((f128)c[2]) + fabsq((f128)c[6])) / 2, fabsq(want[3]), (fabsq((f128)c[5]) + fabsq((f128)c[7])) / 2, fabsq(want[5])};
+      // one correctly rounded addition and an exact halving: a few ulps of the RESULT, also where the two entries nearly cancel
+      f128 sc[6] = {fabsq(want[0]), fabsq(want[1]), fabsq(want[2]), fabsq(want[3]), fabsq(want[4]), fabsq(want[5])};
       T got[6];
       if constexpr (HasStrainM<DisplacementGradient<T>>::value) {
         vf::comps(G.Strain(), got);
